@@ -439,7 +439,7 @@ func genCase(t *rapid.T) Case {
 }
 
 func TestC13(t *testing.T) {
-	n := rec.Scale(350, 12000)
+	n := rec.Scale(350, 60000)
 	g := rapid.Custom(genCase)
 	for i := 0; i < n; i++ {
 		c := g.Example(int(ev.Seed())*1000003 + i)
